@@ -335,10 +335,51 @@ class Monitor(Job):
             MGR.Connector = real_connector
 
 
+# ---------------------------------------------------------------------- the monitor on the real connection stack
+from harness.dsim import DExplore, make_jobs as make_djobs  # noqa: E402
+
+
+class MonitorNet(DExplore):
+    """two real dilation stacks (Manager + Connector + DilatedConnectionProtocol over the in-memory network, concrete clock): any link may die at
+    any moment, then more than three ping intervals pass.  The Leader must not be left holding a connection that is gone (a dead link is a silent
+    peer): by then it has dropped it and started a new generation, and nothing failed internally."""
+    configs = {"net-any-loss": dict(app=False, lose_any=True)}
+
+    def __init__(self, cfg, plo, phi, k):
+        DExplore.__init__(self, cfg, plo, phi, k)
+        self.name = "monitor_net_%s_p%d-%d_k%d" % (cfg, plo, phi, k)
+
+    def final_phase(self, sim):
+        if getattr(sim, "_intervals_passed", False):
+            return False
+        sim._intervals_passed = True
+        for _ in range(8):
+            if not sim.w.fire_timer():
+                break
+            sim.w.settle()
+        return True
+
+    def violations(self, sim, when):
+        out = []
+        w = sim.w
+        for s_ in w.sides:
+            for e in s_.errors:
+                out.append(("internal failure", "%s: %s %s: %s" % (s_.name, e[0], e[1], e[2])))
+        for l in w.logged:
+            out.append(("error logged", l))
+        if when == "settled" and getattr(sim, "_intervals_passed", False) and not any(sim.stopped_req):
+            for i, s_ in enumerate(w.sides):
+                if s_.m._my_role is LEADER and s_.m._connection is not None:
+                    live = [p for (pipe, p) in w.selected(i)]
+                    if s_.m._connection not in live:
+                        out.append(("the Leader still holds a connection that is gone although several ping intervals have passed", "%s is %s" % (s_.name, s_.state())))
+        return out
+
+
 def jobs(tier):
     thorough = tier == "thorough"
     n = 16 if thorough else 10
-    return [Monitor("responsive", n), Monitor("silent", n), Monitor("free", n - 1), Monitor("loss", n - 2), Monitor("follower", 4), Monitor("backpressure", 12 if thorough else 8)]
+    return [Monitor("responsive", n), Monitor("silent", n), Monitor("free", n - 1), Monitor("loss", n - 2), Monitor("follower", 4), Monitor("backpressure", 12 if thorough else 8)] + make_djobs(MonitorNet, tier, 2, 3)
 
 
 ASSUMPTIONS = [
